@@ -186,6 +186,17 @@ def handle (op : String) (j : Json) : Except String Json := do
   | "e2e.tools" =>
     let r := parseListTools (fun _ => false) (encodeListTools (← (← getArr j "v").toList.mapM toolOfSpec))
     pure (outcome (fun (p : List ToolDesc × Text) => Json.mkObj [("tools", .arr (p.1.map specOfTool).toArray), ("next", txt p.2)]) r)
+  -- routing of the response that carries the value (the envelope decides, never the payload): the classifier of the mode
+  | "e2e.route" =>
+    let v ← j.getObjVal? "v"
+    let res ← match ← getStr j "path" with
+      | "tool" => pure (encodeResult (← resultOfSpec v))
+      | "prompt" => pure (encodeGetPrompt (← promptOfSpec v))
+      | k => throw s!"path {k}"
+    let env := responseEnvelope (.int 1) res
+    let kind := if (← getStr j "mode") == "legacy-sse" then classifyLegacySSE env else classifyMessageType env
+    pure (Json.mkObj [("kind", match kind with
+      | .request => "request" | .response => "response" | .error => "error" | .notification => "notification" | .invalid => "invalid")])
   | "e2e.error" =>
     let p ← match ← getStr j "path" with
       | "tool" => pure (Path.tool (← getText j "tool"))
